@@ -25,6 +25,40 @@ PROPS = {
     ),
 }
 
+
+PROPS['C16'] = dict(
+    technique='CBMC contract proofs with woven loop invariants and ghost index (hex: unbounded round trip; URL: unbounded output-structure and token-decoding contracts); bounded complete round trips for URL/Base64 at constant lengths',
+    text='Hex: qhex_encode and qhex_decode are proved for every length (lower-case digits, exact pairs, both digit cases) and composed in one harness into an unbounded round trip decode(encode(x)) == x with exact length. URL: for every length the encoder output is proved to be the concatenation of per-byte encodings, a byte being literal only if URL-safe and otherwise %hh lower case; the decoder is proved token by token (+ to space, %hh either case) for every string; per-byte inverse over all 256 values; whole-string round trips for every string up to 4 (thorough 8) bytes. Base64: RFC 4648 alphabet, padding and round trip for every input of 1..6 (thorough 12) bytes, fully symbolic.',
+    design_ref='DESIGN.md section 3 C16',
+    note='Unbounded: hex encode/decode/round trip, URL encoder structure, URL decoder tokens. Bounded stand-ins (labelled, never counted as proved): URL whole-string round trip (<= 4/8 bytes), Base64 format and round trip (<= 6/12 bytes). qparse_queries pair round trip is covered by the bounded parser group under C17/C16 once built; allocation is the CBMC model.',
+    trusted_base=COMMON_TRUST + ['strdup/strlen in bounded groups are CBMC library models'],
+    unchecked=['Base64/URL whole-string round trips beyond the stated lengths', 'query-string assembly is not a library function: only parsing is checked'],
+)
+PROPS['C17'] = dict(
+    technique='CBMC contract proofs with woven loop invariants (cursor bounds, terminator intact, decreases clause) on the in-place decoders and _q_makeword for strings of every length; bounded stand-ins for the parsers',
+    text='qurl_decode, qhex_decode, qbase64_decode and _q_makeword are proved memory-safe and terminating for EVERY NUL-terminated input of any length (exactly-sized heap buffer, arbitrary bytes): read/write cursors never leave the buffer, the terminator stays intact, the result is never longer than the input, each loop has a decreasing measure.',
+    design_ref='DESIGN.md section 3 C17',
+    note='Decoders and _q_makeword: unbounded. Parsers (qparse_queries, INI, Apache style): bounded stand-ins where built (see evidence); variable-expansion termination is a recorded finding if listed in known_findings.txt.',
+    trusted_base=COMMON_TRUST,
+    unchecked=['parser inputs longer than the stated bounds'],
+)
+PROPS['C18'] = dict(
+    technique='CBMC contract proofs: woven loop contracts with a ghost reference accumulator (FNV-1 32/64, every length); MD5Transform == RFC 1321 compression for all inputs by z3; bounded complete equivalence with independent references at constant lengths (Murmur3, MD5 padding)',
+    text='FNV-1 32/64: for every length the real loop is proved to consume exactly the n given bytes (NULs included, nothing beyond the buffer) and to equal the published recurrence h = (h*prime) xor byte (the shift-add form is proved equal to the multiply for every word inside the loop contract). Murmur3 x86_32/x64_128: for every length the body is proved to read exactly the little-endian blocks of the input in order and nothing outside the buffer; value equality with the published algorithm is decided completely for each length 1..130 with symbolic content (z3). MD5: MD5Transform equals an independently written table-driven RFC 1321 compression for all 2^128 x 2^512 inputs; Init constants; Update/Pad/Final feed exactly the RFC padded message to the compression function in order for every message length 1..130.',
+    design_ref='DESIGN.md section 3 C18',
+    note='Unbounded: FNV-1 32/64 values, Murmur read pattern/safety, MD5 compression. Bounded (constant length 1..130, arbitrary content): Murmur values, MD5 padding/buffering with the compression function replaced by a recording stub. qhashmd5_file (POSIX I/O) and alignment independence are not covered; composition "compression lemma + padded block sequence => MD5" is a meta-argument.',
+    trusted_base=COMMON_TRUST + ['z3 4.8.12 as SMT back end for the multiplication-heavy equivalences', 'unaligned 32/64-bit loads are treated as defined little-endian loads'],
+    unchecked=['qhashmd5_file', 'messages longer than 130 bytes for Murmur value equality and MD5 padding', 'nbytes >= 2^32 (qhashmd5 truncates to unsigned int)'],
+)
+PROPS['C19'] = dict(
+    technique='CBMC bounded contract checks: every string routine against an independent executable reference on all buffers of a constant size over all 256 byte values, exactly-sized buffers, loops fully unwound with unwinding assertions',
+    text='qstrtrim/_head/_tail, qstrupper/lower, qstrrev, qstrunchar, qstrcpy/qstrncpy (every size 0..n+2), qstrgets, qstrreplace (4 modes), qstrtok, qstrdup_between and qmemdup are compared with independently written reference functions for EVERY buffer content of the stated size (all byte values, hence every shorter string, blanks, delimiters, quotes, bytes >= 0x80) with all bounds/pointer obligations on exactly-sized buffers.',
+    design_ref='DESIGN.md section 3 C19',
+    note='Bounded stand-in throughout (strings <= 6/8 bytes; replace: source <= 3/5, token <= 2, word <= 2); labelled bounded, not counted as proved. Trailing empty field after a final delimiter is not returned by qstrtok (code behaviour, taken as the documented one). qstrtokenizer, qstrdupf/qstrcatf (vsnprintf) are outside the claim. The string under test sits one byte into its allocation because CBMC cannot represent the one-before-start pointer the backward scans form without dereferencing; the guard byte is arbitrary and asserted unchanged.',
+    trusted_base=COMMON_TRUST + ['strlen/memmove/strcpy/strncmp/strncpy: CBMC library models; strstr: executable model in the harness'],
+    unchecked=['strings longer than the stated bounds', 'qstrtokenizer, qstrdupf, qstrcatf, qstr_comma_number, qstrunique'],
+)
+
 NOT_APPLICABLE = {
     'C20': 'needs a second, reference parser as specification and a proof that two tokenisers agree on every document; CBMC has no usable model of the fgets/vsnprintf/realloc-based code and a bounded stand-in (~10 symbolic bytes) cannot hold one nested section, so nothing the property is about would be decided (DESIGN.md section 4)',
 }
